@@ -4,7 +4,8 @@ From PegV Require Import Utf8 State Terminals Syntax Fields Literals Model Inv T
 Theorem C19_facts :
   Extracted.file_codegen_src_rule_rs = true /\ Extracted.file_runtime_src_trace_rs = true /\
   Extracted.file_runtime_src_peg_parser_rs = true /\ Extracted.file_codegen_src_char_rule_rs = true /\
-  Extracted.file_codegen_src_extern_rule_rs = true.
+  Extracted.file_codegen_src_extern_rule_rs = true /\
+  Extracted.file_runtime_src_state_rs = true /\ Extracted.file_runtime_src_global_rs = true.
 Proof. repeat split; reflexivity. Qed.
 Print Assumptions C19_facts.
 
